@@ -28,6 +28,29 @@ fn check(est: &str, x: &Mat, k: usize, family: &str) -> bool {
     }
 }
 
+/// Non-vacuity counters of the rescaled lattices: counted only when `fit` returned a model, every
+/// clause was evaluated and the case is non-trivial (non-zero trace / Frobenius norm).
+fn count_scaled(est: &str, n: usize, p: usize, tiny: bool) {
+    let name = match (est, n > p, p, tiny) {
+        ("cov", true, _, true) => "scaled_tiny_pca_svd_path",
+        ("cov", true, _, false) => "scaled_huge_pca_svd_path",
+        ("cov", false, 3, true) => "scaled_tiny_pca_cov_evd_3x3",
+        ("cov", false, 3, false) => "scaled_huge_pca_cov_evd_3x3",
+        ("cov", false, 4, true) => "scaled_tiny_pca_cov_evd_4x4",
+        ("cov", false, 4, false) => "scaled_huge_pca_cov_evd_4x4",
+        ("cov", false, _, true) => "scaled_tiny_pca_cov_evd_other",
+        ("cov", false, _, false) => "scaled_huge_pca_cov_evd_other",
+        ("corr", _, _, true) => "scaled_tiny_pca_corr",
+        ("corr", _, _, false) => "scaled_huge_pca_corr",
+        (_, _, _, true) => "scaled_tiny_tsvd",
+        (_, _, _, false) => "scaled_huge_tsvd",
+    };
+    mc::count(name);
+    if est == "corr" && p >= 3 {
+        mc::count(if tiny { "scaled_tiny_pca_corr_p_ge_3" } else { "scaled_huge_pca_corr_p_ge_3" });
+    }
+}
+
 // ------------------------------------------------------------------------------------------------
 // plan
 
@@ -38,8 +61,10 @@ struct LatJob {
     alpha: Vec<f64>,
     fixed: Vec<usize>,
     est: String,
-    /// power-of-two rescaling of the whole data matrix (0 for the plain lattices); `alpha` is already scaled
+    /// power-of-two rescaling of the whole data matrix (0 for the plain lattices); `alpha` is the scaled alphabet
     exp: i64,
+    /// number of row codes |alphabet|^p (sorted families)
+    row_codes: usize,
     /// enumerate one representative per row-permutation class (rows in non-decreasing code order)
     sorted: bool,
 }
@@ -90,7 +115,9 @@ fn sorted_count(r: u64, n: usize) -> u64 {
 /// representative of every class of matrices equal up to the order of the rows).
 #[allow(clippy::too_many_arguments)]
 fn lat_jobs_scaled(jobs: &mut Vec<(usize, Job)>, n: usize, p: usize, aname: &str, ests: &[&str], seed: u64, cap: u64, exp: i64, sorted: bool) {
-    let alpha: Vec<f64> = alphabet(aname, seed).iter().map(|v| v * pow2(exp)).collect();
+    // the job carries the plain alphabet; `run` multiplies by 2^exp (exact), so the rescaled matrices
+    // are exactly 2^exp times the matrices of the plain lattice
+    let alpha: Vec<f64> = alphabet(aname, seed);
     let a = alpha.len() as u64;
     let cells = n * p;
     if sorted {
@@ -260,6 +287,7 @@ impl Harness for C14 {
         }
         jobs.sort_by_key(|(w, _)| *w);
         let jobs: Vec<Job> = jobs.into_iter().map(|(_, j)| j).collect();
+        let scaled_desc: Vec<String> = sspace.iter().map(|(n, p, a, sorted, _)| format!("{}x{} over {:?}{}", n, p, alphabet(a, seed), if *sorted { " (rows in non-decreasing code order: one matrix per row-permutation class)" } else { "" })).collect();
         let lattice_desc: Vec<String> = space.iter().map(|(n, p, a, e)| format!("{}x{} over {:?}{}", n, p, alphabet(a, seed), if e.len() < 3 { format!(" ({} only)", e.join("+")) } else { String::new() })).collect();
         Plan {
             jobs,
@@ -280,9 +308,23 @@ impl Harness for C14 {
                 ("tsvd_singular_value_tie_at_cut", 100),
                 ("tsvd_k_eq_p_rejected", 1_000),
                 ("structured_cases", 1_000),
+                // rescaled lattices (round 2): fit returned a model, every clause evaluated, non-trivial case
+                ("scaled_tiny_pca_svd_path", 100_000),
+                ("scaled_huge_pca_svd_path", 100_000),
+                ("scaled_tiny_pca_cov_evd_3x3", 50_000),
+                ("scaled_huge_pca_cov_evd_3x3", 50_000),
+                ("scaled_tiny_pca_cov_evd_4x4", 200_000),
+                ("scaled_huge_pca_cov_evd_4x4", 200_000),
+                ("scaled_tiny_pca_corr", 200_000),
+                ("scaled_huge_pca_corr", 200_000),
+                ("scaled_tiny_pca_corr_p_ge_3", 200_000),
+                ("scaled_huge_pca_corr_p_ge_3", 200_000),
+                ("scaled_tiny_tsvd", 200_000),
+                ("scaled_huge_tsvd", 200_000),
             ],
             bounds: json!({
                 "lattices": format!("every n x p matrix over the alphabet, for: {}; x {{PCA covariance, PCA correlation: every k in 1..=p; truncated SVD: every k in 1..p and k = p (must be Err)}}; constant columns are outside the statement in correlation mode (skipped, counted)", lattice_desc.join("; ")),
+                "rescaled_lattices": format!("power-of-two rescaling: every matrix of the following lattices with every entry multiplied by 2^e (exact), for every e in {:?}: {}; x the same 3 estimators x every k; same oracle, every tolerance relative to the (scaled) trace; site keys of these inputs end in :tiny-magnitude (0 < max|x| < 2^-20) / :huge-magnitude (max|x| > 2^20)", scaled_exps(t), scaled_desc.join("; ")),
                 "structured": format!("n in {}, p in 1..=8: every (rank structure in {{1,2,p-1,p latent integer factors, exact duplicate column, constant column}}) x (4 column-scale profiles: unit, 2^-7..2^10, 1e-2..1e3, alternating 1e3/1e-2) x (3 mean profiles: 0, +1e4, mixed up to 1e4) x {} generator rotation(s) x 3 estimators x every k", if t { "2..=80 (every n)" } else { "{2,3,5,8,9,17,40,80}" }, if t { 4 } else { 1 }),
                 "seed": format!("VERIF_SEED mod 8 selects the affine perturbation a*v+b of the lattice alphabets (here a={}, b={}) and rotates the structured generator's weights", PERTURB[(seed % 8) as usize].0, PERTURB[(seed % 8) as usize].1),
                 "element_type": "f64, DenseMatrix",
@@ -298,27 +340,57 @@ impl Harness for C14 {
                 LAT.with(|l| {
                     let mut l = l.borrow_mut();
                     if l.as_ref().map(|d| d.name != job.name).unwrap_or(true) {
+                        // "exp" / "sorted" are absent in the plain lattice jobs
+                        let exp = job.params["exp"].as_i64().unwrap_or(0);
+                        let alpha: Vec<f64> = job.params["alpha"].as_array().expect("alpha").iter().map(|v| v.as_f64().unwrap() * pow2(exp)).collect();
+                        let row_codes = alpha.len().pow(p as u32);
                         *l = Some(LatJob {
                             name: job.name.clone(),
-                            alpha: job.params["alpha"].as_array().expect("alpha").iter().map(|v| v.as_f64().unwrap()).collect(),
+                            alpha,
                             fixed: job.params["fixed"].as_array().expect("fixed").iter().map(|v| v.as_u64().unwrap() as usize).collect(),
                             est: job.s("est").to_string(),
+                            exp,
+                            row_codes,
+                            sorted: job.b("sorted"),
                         });
                     }
                 });
-                let (x, est) = LAT.with(|l| {
+                let (x, est, exp) = LAT.with(|l| {
                     let l = l.borrow();
                     let d = l.as_ref().unwrap();
                     let mut x = vec![vec![0.0; p]; n];
-                    for e in 0..n * p {
-                        let idx = if e < d.fixed.len() { d.fixed[e] } else { mc::choose(d.alpha.len()) };
-                        x[e / p][e % p] = d.alpha[idx];
+                    if d.sorted {
+                        // row codes in non-decreasing order: row i draws from prev..row_codes
+                        let a = d.alpha.len();
+                        let mut prev = 0usize;
+                        for row in x.iter_mut() {
+                            let code = prev + mc::choose(d.row_codes - prev);
+                            prev = code;
+                            // digits of the code in base |alphabet|, first cell most significant
+                            let mut c = code;
+                            for j in (0..p).rev() {
+                                row[j] = d.alpha[c % a];
+                                c /= a;
+                            }
+                        }
+                    } else {
+                        for e in 0..n * p {
+                            let idx = if e < d.fixed.len() { d.fixed[e] } else { mc::choose(d.alpha.len()) };
+                            x[e / p][e % p] = d.alpha[idx];
+                        }
                     }
                     let est: &'static str = ESTS.iter().find(|e| **e == d.est).expect("estimator");
-                    (x, est)
+                    (x, est, d.exp)
                 });
                 let k = 1 + mc::choose(p);
-                check(est, &x, k, "lattice");
+                if exp == 0 {
+                    check(est, &x, k, "lattice");
+                } else {
+                    let fam = format!("lattice x 2^{}", exp);
+                    if check(est, &x, k, &fam) {
+                        count_scaled(est, n, p, exp < 0);
+                    }
+                }
             }
             "str" => {
                 // generator rotation: VERIF_SEED picks the base, the thorough tier enumerates 4 consecutive rotations
